@@ -192,10 +192,16 @@ def _fresh(cols: Dict[str, str], base: str) -> str:
         i += 1
 
 
+MAX_EST_ROWS = 2500  # keep every intermediate result small: a scenario is evaluated dozens of times
+
+
 def gen_steps(r, cols: Dict[str, str], tables: Dict[str, Dict[str, str]], max_steps: int, depth: int = 0,
-              allow: Optional[List[str]] = None) -> Tuple[List[Dict[str, Any]], Dict[str, str]]:
+              allow: Optional[List[str]] = None, sizes: Optional[Dict[str, int]] = None,
+              est0: int = 12) -> Tuple[List[Dict[str, Any]], Dict[str, str]]:
     cols = dict(cols)
     steps: List[Dict[str, Any]] = []
+    sizes = sizes or {}
+    est = [max(1, est0)]  # upper bound on the number of rows flowing out of the steps generated so far
     kinds_all = allow or ["extend", "extend", "wextend", "wextend", "owextend", "owextend", "project", "select_rows",
                           "select_columns", "drop_columns", "rename_columns", "map_columns", "order_rows", "order_limit",
                           "natural_join", "natural_join", "concat_rows", "selfjoin_summary"]
@@ -464,6 +470,9 @@ def gen_steps(r, cols: Dict[str, str], tables: Dict[str, Dict[str, str]], max_st
         elif kind == "natural_join" and depth == 0 and tables and r.random() < 0.12:
             # key-less (cross) join: the Pandas executor joins on a scratch column it adds to both sides
             tn = r.choice(sorted(tables))
+            if est[0] * max(1, sizes.get(tn, 12)) > MAX_EST_ROWS:
+                continue
+            est[0] = est[0] * max(1, sizes.get(tn, 12))
             c = r.choice(sorted(tables[tn]))
             newc = _fresh(cols, c + "x")
             steps.append({"t": "natural_join", "jointype": "CROSS", "on": [],
@@ -490,6 +499,12 @@ def gen_steps(r, cols: Dict[str, str], tables: Dict[str, Dict[str, str]], max_st
             if bad:
                 continue
             jt = r.choice(["INNER", "LEFT", "RIGHT", "FULL", "INNER", "LEFT"])
+            rn = max(1, sizes.get(tn, 12))
+            one_to_one = any(cols[c] == "key" and rcols.get(c) == "key" for c in on)
+            new_est = (est[0] + rn) if one_to_one else est[0] * rn + est[0] + rn
+            if new_est > MAX_EST_ROWS:
+                continue
+            est[0] = new_est
             steps.append({"t": "natural_join", "b": {"src": tn, "steps": rsteps}, "on": on, "jointype": jt})
             newcols = {}
             for c, k in cols.items():
@@ -550,6 +565,7 @@ def gen_steps(r, cols: Dict[str, str], tables: Dict[str, Dict[str, str]], max_st
             if numc and r.random() < 0.25:
                 bsteps = bsteps + [{"t": "select_rows", "expr": f"{numc[0]} < -1000"}]  # a side that evaluates to no rows
             steps.append({"t": "concat_rows", "b": {"src": tn, "steps": bsteps}, "id_column": idc})
+            est[0] = est[0] + max(1, sizes.get(tn, 12))
             cols = {c: ("int" if cols[c] == "key" else cols[c]) for c in common}
             if idc:
                 cols[idc] = "str"
@@ -560,7 +576,8 @@ def gen_pipeline(r, tables: Dict[str, Dict[str, Any]], max_steps: int = 7, want_
     tcols = {n: table_columns(t) for n, t in tables.items()}
     src = r.choice(sorted(tables))
     others = {n: c for n, c in tcols.items()}
-    steps, cols = gen_steps(r, tcols[src], others, max_steps)
+    sizes = {n: table_nrows(t) for n, t in tables.items()}
+    steps, cols = gen_steps(r, tcols[src], others, max_steps, sizes=sizes, est0=sizes[src])
     if want_diamond and steps and not any(st["t"] == "selfjoin_summary" for st in steps):
         more, cols2 = gen_steps(r, cols, {}, 1, allow=["selfjoin_summary"])
         steps = steps + more
